@@ -232,6 +232,7 @@ func derefNamed(t types.Type) (*types.Named, bool) {
 var fieldInvariants = []core.FieldInvariant{
 	{Type: "NameScanner", Terms: map[string]int64{"off": 1}, C: 0, Doc: "NameScanner.off >= 0"},
 	{Type: "pipelineConn", Terms: map[string]int64{"nextQid": 1}, C: 0, Doc: "pipelineConn.nextQid >= 0"},
+	{Type: "NameBuilder", Terms: map[string]int64{"l": -1}, C: 254, Doc: "NameBuilder.l <= 254"},
 }
 
 // verifyFieldInvariants proves each declared (single-field) invariant inductively: the zero value satisfies it and
@@ -266,7 +267,27 @@ func verifyFieldInvariants(c *core.Ctx, be *boundsEngine) {
 				}
 				n++
 				p := be.prover(fn)
-				goal := p.Env.Of(st.Val).MulC(coef).AddC(inv.C)
+				val := st.Val
+				// a narrowing conversion whose operand is proved to fit the target type has the operand's value
+				for {
+					cv, isCv := val.(*ssa.Convert)
+					if !isCv {
+						break
+					}
+					_, _, _, okS := intRange(cv.X.Type())
+					tlo, thi, _, okT := intRange(cv.Type())
+					if !okS || !okT {
+						break
+					}
+					x := p.Env.Of(cv.X)
+					lo, _ := p.Prove(x.AddC(-tlo), b)
+					hi, _ := p.Prove(core.LinConst(thi).Sub(x), b)
+					if !lo || !hi {
+						break
+					}
+					val = cv.X
+				}
+				goal := p.Env.Of(val).MulC(coef).AddC(inv.C)
 				ok2, why := p.Prove(goal, b)
 				c.Check(ok2, fmt.Sprintf("field-invariant-store:%s:%s#%d", inv.Doc, core.FuncName(fn), n), st.Pos(), fn, "the stored value keeps "+inv.Doc, why+" ["+goal.String()+" >= 0]")
 			})
@@ -471,6 +492,10 @@ func init() {
 	rv("(*app/router.udpServer).startThreadLinux", ".Buffers[0]", "ms[i].Buffers is the one-element slice installed for every i by the initialisation loop at the top of this function and never reassigned")
 	rv("(*internal/netlist.List[int]).Lookup[int]$1", "l.e[i]", "sort.Search(n, f) calls f only with 0 <= i < n, n = len(l.e) (documented contract of package sort)")
 	rv("(*app/router.gnetServer).OnTraffic", "Uint16(cc.buffer)", "the prefix buffer is GetBuf(2) (R13d: readingHdr is true exactly for the 2-byte buffer)")
+	rv("(*internal/netlist.ListBuilder[int]).Build[int]$1", "[i]", "sort.Slice(x, less) calls less only with 0 <= i, j < len(x) (documented contract of package sort); rs is the slice being sorted")
+	rv("(*internal/netlist.ListBuilder[int]).Build[int]$1", "[j]", "sort.Slice contract (see above)")
+	rv("(*app/router.router).startUdpServer", ".cs[0]", "the loop above runs `threads` >= 1 times (values < 1 are replaced by 1 at the top of the function) and each iteration appends one socket or returns with an error: an invariant over a field's length across loop iterations, outside the linear prover")
+	rv("(*app/router.router).startUdpServer$1", ".cs[i]", "i is the captured index of `for i := range s.cs`; s.cs is not shortened afterwards (who-stores: only the append loop above)")
 	rv("(*app/router.ipMarker).Mark", "m.s[", "the index is a value stored by assignIdx (always len(labels)-1 at the time of the append, labels only grows) — an invariant over map contents beyond linear facts; who-stores checked by R07e")
 }
 
@@ -860,6 +885,92 @@ func engineFor(c *core.Ctx) *boundsEngine {
 	return be
 }
 
+// caseStringLen: `x[:k]` (k constant) in a block every predecessor edge of which is the true edge of `x == "const"`
+// with len(const) >= k — the body of `switch x { case "a", "b": … x[:k] }`.
+func caseStringLen(in ssa.Instruction, ob obligation) (bool, string) {
+	sl, ok := in.(*ssa.Slice)
+	if !ok || ob.kind != "slice-high<=len" || sl.High == nil {
+		return false, ""
+	}
+	k, isC := core.ConstInt(sl.High)
+	if !isC {
+		return false, ""
+	}
+	// walk up through single-predecessor blocks to the join that the case labels jump to
+	b := sl.Block()
+	for len(b.Preds) == 1 && !endsInIfOn(b.Preds[0], sl.X) {
+		b = b.Preds[0]
+	}
+	if len(b.Preds) == 0 {
+		return false, ""
+	}
+	var consts []string
+	for _, p := range b.Preds {
+		iff, ok := p.Instrs[len(p.Instrs)-1].(*ssa.If)
+		if !ok || p.Succs[0] != b {
+			return false, ""
+		}
+		bo, ok := iff.Cond.(*ssa.BinOp)
+		if !ok || bo.Op != token.EQL {
+			return false, ""
+		}
+		var cs string
+		var okS bool
+		switch {
+		case sameLoad(bo.X, sl.X):
+			cs, okS = core.ConstString(bo.Y)
+		case sameLoad(bo.Y, sl.X):
+			cs, okS = core.ConstString(bo.X)
+		}
+		if !okS || int64(len(cs)) < k {
+			return false, ""
+		}
+		consts = append(consts, fmt.Sprintf("%q", cs))
+	}
+	return true, fmt.Sprintf("every way into this block is the true edge of a comparison of the sliced string with %s (each at least %d bytes long)", strings.Join(consts, ", "), k)
+}
+
+func endsInIfOn(b *ssa.BasicBlock, x ssa.Value) bool {
+	iff, ok := b.Instrs[len(b.Instrs)-1].(*ssa.If)
+	if !ok {
+		return false
+	}
+	bo, ok := iff.Cond.(*ssa.BinOp)
+	return ok && bo.Op == token.EQL && (sameLoad(bo.X, x) || sameLoad(bo.Y, x))
+}
+
+// sameLoad: the same SSA value, or two loads of the same address expression with no store to it in the function.
+func sameLoad(a, b ssa.Value) bool {
+	if a == b {
+		return true
+	}
+	ua, ok1 := a.(*ssa.UnOp)
+	ub, ok2 := b.(*ssa.UnOp)
+	if !ok1 || !ok2 || ua.Op != token.MUL || ub.Op != token.MUL {
+		return false
+	}
+	if core.Expr(ua.X) != core.Expr(ub.X) {
+		return false
+	}
+	fa, ok := ua.X.(*ssa.FieldAddr)
+	if !ok {
+		return false
+	}
+	ref := core.FieldAddrRef(fa)
+	stored := false
+	core.EachInstr(ua.Parent(), func(_ *ssa.BasicBlock, _ int, in ssa.Instruction) {
+		if st, ok := in.(*ssa.Store); ok {
+			if f2, ok := st.Addr.(*ssa.FieldAddr); ok && core.FieldAddrRef(f2).Name == ref.Name {
+				// a store between the comparison and the slice would change the string
+				if core.Reach(ua.Parent(), ua, func(x ssa.Instruction) bool { return x == in }, nil) != nil && core.Reach(ua.Parent(), in, func(x ssa.Instruction) bool { return x == ssa.Instruction(ub) }, nil) != nil {
+					stored = true
+				}
+			}
+		}
+	})
+	return !stored
+}
+
 // afterNoReturn: an earlier instruction of the same block calls a module function that has no return instruction.
 func afterNoReturn(in ssa.Instruction) bool {
 	for _, x := range in.Block().Instrs {
@@ -931,6 +1042,11 @@ func runBounds(c *core.Ctx, scope string) {
 				// entry points may not have requirements on attacker-controlled input
 				if _, ok := localToParams(p, fn, ob.goal); ok && !entry[fn] && len(c.CallSitesOf(fn)) > 0 {
 					c.OK(key, in.Pos(), fn, ob.desc, "lifted to a precondition of "+name+" (proved at every call site)")
+					continue
+				}
+				if okc, why := caseStringLen(in, ob); okc {
+					proved++
+					c.OK(key, in.Pos(), fn, ob.desc, why)
 					continue
 				}
 				if reason, ok := reviewedReason(fn, in); ok {
